@@ -36,6 +36,8 @@ pub enum ColorKind {
     Bgr888,
     /// harness-defined colour with a user-written `ColorMapping` (non-ASCII pattern characters)
     User8,
+    /// harness-defined 2 bpp colour whose `From<RawU2>` is not total (raw value 3 is forbidden)
+    User2,
 }
 
 impl ColorKind {
@@ -55,12 +57,13 @@ impl ColorKind {
             ColorKind::Bgr565 => "Bgr565",
             ColorKind::Bgr888 => "Bgr888",
             ColorKind::User8 => "UserColor8",
+            ColorKind::User2 => "UserColor2(partial)",
         }
     }
     pub fn bits(self) -> u32 {
         match self {
             ColorKind::Binary => 1,
-            ColorKind::Gray2 => 2,
+            ColorKind::Gray2 | ColorKind::User2 => 2,
             ColorKind::Gray4 => 4,
             ColorKind::Gray8 => 8,
             ColorKind::Rgb565 => 16,
@@ -122,6 +125,29 @@ impl From<Cu8> for embedded_graphics::pixelcolor::raw::RawU8 {
 impl From<Cu8> for Rgb888 {
     fn from(c: Cu8) -> Self {
         Rgb888::new(c.0, c.0 / 2, 255 - c.0)
+    }
+}
+
+/// Harness-defined 2 bpp colour standing for a user's colour type whose conversion from raw data
+/// is **not total**: a three-colour e-paper colour, raw value 3 does not exist and converting it
+/// panics. Image data may hold that value wherever no pixel is read (row padding).
+#[derive(Clone, Copy, PartialEq, Eq, Debug)]
+pub struct Cu2(pub u8);
+
+impl PixelColor for Cu2 {
+    type Raw = embedded_graphics::pixelcolor::raw::RawU2;
+}
+impl From<embedded_graphics::pixelcolor::raw::RawU2> for Cu2 {
+    fn from(r: embedded_graphics::pixelcolor::raw::RawU2) -> Self {
+        match r.into_inner() {
+            3 => panic!("UserColor2: raw value 3 is not a colour"),
+            v => Cu2(v),
+        }
+    }
+}
+impl From<Cu2> for embedded_graphics::pixelcolor::raw::RawU2 {
+    fn from(c: Cu2) -> Self {
+        embedded_graphics::pixelcolor::raw::RawU2::new(c.0)
     }
 }
 
@@ -216,6 +242,15 @@ impl SimColor for Cu8 {
     }
     with_image_impl!(Cu8);
     new_const_impl!(Cu8);
+}
+impl SimColor for Cu2 {
+    const KIND: ColorKind = ColorKind::User2;
+    type Down = Cu2;
+    fn to_u32(self) -> u32 {
+        self.0 as u32
+    }
+    with_image_impl!(Cu2);
+    new_const_impl!(Cu2);
 }
 impl SimColor for C32 {
     const KIND: ColorKind = ColorKind::C32;
